@@ -57,7 +57,7 @@ def main():
     import pyimpspec  # noqa: F401  (through the loader: the current working tree of /repo)
 
     mod = importlib.import_module("checks." + prop.lower())
-    bounds_tier = tier if (tier == "quick" or prop in THOROUGH_SIZED) else "quick"
+    bounds_tier = tier if (tier == "quick" or prop in THOROUGH_SIZED or os.environ.get("VERIF_FORCE_BOUNDS") == "thorough") else "quick"
     if bounds_tier != tier:
         print("[%s] thorough tier: deeper bounds not sized on this tree, exploring the quick bounds" % prop)
     obs = mod.obligations(bounds_tier)
